@@ -243,7 +243,7 @@ def _bounds(ctx):
     return dict(max_qubits=10, max_kept=6) if ctx.tier == "quick" else dict(max_qubits=10, max_kept=6)
 
 
-@part("energies", quick=60, thorough=2400)
+@part("energies", quick=52, thorough=2400)
 def energies(ctx):
     """All reference types, all frozen-orbital forms, all molecule families."""
     ctx.search("energies", cases(M.molecules(**_bounds(ctx))), lambda c: check_molecule(ctx, c),
@@ -269,7 +269,7 @@ def uhf_perspin_molecules(draw):
     return m
 
 
-@part("uhf_perspin", quick=28, thorough=800)
+@part("uhf_perspin", quick=24, thorough=800)
 def uhf_perspin(ctx):
     ctx.search("uhf_perspin", cases(uhf_perspin_molecules()), lambda c: check_molecule(ctx, c),
                exclusions={PHANTOM_SIG: padded_register}, shrink_calls=60 if ctx.tier == "quick" else 300)
